@@ -22,7 +22,7 @@ Prop`, with the strongest `_partial` theorem (explicit side conditions) and a
 `_counterexample` from a concrete witness.  Helper lemmas live in
 CtyModel/Lemmas/{CoversBasic,CoversWeaken,OpsLogic,OpsCompare,OpsArith,OpsColl,
 OpsEquals,OpsIncludes,OpsAddSub,OpsDerived,OpsSets,OpsMul,OpsKnown,d01Ext,d01Round,d01Arith,d01Range,d01Mul,d01Side,d01Has,d01Len,d01EqObj,d01Fuel,
-d01bSets,d01bInf,d01bWhole}.lean.
+d01bSets,d01bInf,d01bWhole,d01bSide}.lean.
 -/
 import CtyModel.Lemmas.OpsEquals
 import CtyModel.Lemmas.OpsIncludes
@@ -40,6 +40,7 @@ import CtyModel.Lemmas.OpsFnsTieSound
 import CtyModel.Lemmas.d01bSets
 import CtyModel.Lemmas.d01bInf
 import CtyModel.Lemmas.d01bWhole
+import CtyModel.Lemmas.d01bSide
 namespace CtyModel
 namespace C01
 open Value
@@ -957,6 +958,21 @@ theorem absent_bound_examples :
     Value.equals ⟨.number, .unk (.num .f (some ⟨Num.ofInt 0, false⟩) none)⟩ ⟨.number, .n (.inf false)⟩ = .ok unkBool ∧
     Value.equals ⟨.number, .unk (.num .f (some ⟨Num.ofInt 0, false⟩) none)⟩ ⟨.number, .n (.inf true)⟩ = .ok (boolVal false) :=
   ⟨by decide, by decide, by rfl, by rfl, by rfl⟩
+
+/-- the same for HasElement with the needle kept (`judge.c01.scopeHas`):
+`D01b.inScopeHasMembers` (CtyModel/d01bSide.lean, executable, core-only) collects EVERY
+hypothesis of `sound_hasElement_members_partial`; the harness asks the driver for it on
+every paired HasElement run whose needle is kept and that is outside
+`sound_hasElement_partial`. -/
+theorem in_scope_hasElement_members_sound (s el ws r : Value) (eh : Option Int)
+    (h : D01b.inScopeHasMembers s el ws eh = true) (ho : Value.hasElement s el eh = .ok r) :
+    ∃ r', Value.hasElement ws el eh = .ok r' ∧ Covers r' r = true :=
+  D01b.inScopeHasMembers_sound s el ws r eh h ho
+
+/-- the predicate holds of the three-member stand-in for `{1, 2}` above -/
+example : D01b.inScopeHasMembers ⟨.set .number, .sset [1, 2] [.n (Num.ofInt 1), .n (Num.ofInt 2)]⟩ (intVal 2)
+    ⟨.set .number, .sset [0, 2, 5] [.unk (.num .f (some ⟨Num.ofInt 1, true⟩) none), .n (Num.ofInt 2), .unk .unref]⟩ (some 2) = true := by
+  decide
 
 /-! ## Non-vacuity -/
 example : Weaken ⟨.number, .n (Num.ofInt 5)⟩ ⟨.number, .unk (.num .f (some ⟨Num.ofInt 5, true⟩) none)⟩ :=
